@@ -574,7 +574,8 @@ static int run_script(const char *path)
 
 int main(int argc, char **argv)
 {
-    const char *script, *out; char errpath[4096]; int restarts = 0;
+    const char *script, *out; char errpath[4096]; int restarts = 0, real_faults = 0, last_nullderef = 0;
+    int max_faults = getenv("VERIF_MAX_FAULTS") ? atoi(getenv("VERIF_MAX_FAULTS")) : 60;
     if (argc < 3) { fprintf(stderr, "usage: ecdrive script events.ndjson [guard]\n"); return 2; }
     script = argv[1]; out = argv[2];
     g_guard = argc > 3 && !strcmp(argv[3], "guard");
@@ -627,6 +628,7 @@ int main(int argc, char **argv)
                 /* a NULL dereference (unchecked allocation result) is told apart from other faults */
                 int nullderef = strstr(tail, "null pointer") != NULL || strstr(tail, "address 0x00000000") != NULL;
                 if (strstr(tail, "use-after-free") || strstr(tail, "double-free") || strstr(tail, "buffer-overflow")) nullderef = 0;
+                last_nullderef = nullderef;
                 fprintf(o, "{\"e\":\"Fault\",\"how\":\"%s\",\"cmd\":%ld,\"sub\":%ld,\"incall\":%d,\"nullderef\":%d,\"msg\":\"%s\",\"in\":%s}}\n",
                         how, shm->cmd, shm->sub, shm->incall, nullderef, tail, shm->incall && shm->prefix[0] ? shm->prefix : "{\"e\":\"none\"");
             }
@@ -638,6 +640,13 @@ int main(int argc, char **argv)
         if (resume_sub == -2) resume_cmd = shm->cmd;
         shm->incall = 0;
         if (++restarts > 200000) { fprintf(stderr, "ecdrive: too many faults\n"); return 3; }
+        /* a change that makes the library crash tends to crash it on thousands of cases: after a number of real faults
+         * (not the NULL dereferences under injected allocation failure) the rest of this script adds nothing but time */
+        if (!last_nullderef && ++real_faults >= max_faults) {
+            FILE *o = fopen(out, "a");
+            if (o) { fprintf(o, "{\"e\":\"FaultCap\",\"faults\":%d,\"cmd\":%ld}\n", real_faults, shm->cmd); fclose(o); }
+            break;
+        }
     }
     fprintf(stdout, "events=%ld calls=%ld restarts=%d\n", shm->events, shm->calls, restarts);
     return 0;
